@@ -4,7 +4,7 @@
    about it, via the bridge Proofs/GenBridge.gen_matching_eq.
    keys = the keys of a state's `on` map in insertion order (a Python dict:
    duplicate-free, hence the NoDup hypothesis where order is strict). *)
-From XSM Require Import Model.Match Gen.GenMatch Proofs.PyLibP Proofs.MatchP Proofs.GenBridge.
+From XSM Require Import Model.Match Gen.GenMatch Proofs.PyLibP Proofs.MatchP Proofs.GenBridge Model.TreeLib Gen.GenGeom Proofs.SelectBridge.
 From Coq Require Import Sorting.Sorted.
 
 (* soundness: every returned key is a key of the map and is the event type
@@ -47,6 +47,26 @@ Theorem C20_internal_exact_only : forall keys ev,
 Proof. intros keys ev. rewrite gen_matching_eq. exact (matching_internal keys ev). Qed.
 Print Assumptions C20_internal_exact_only.
 
+(* "a transition declared as null consumes its event at that state so that no ancestor's handler runs": stated over BOTH
+   functions as re-translated from the current source - the descriptor order (_matching_descriptors) and the upward walk
+   that consults it (_collect_eligible_transitions, Gen/GenGeom.v).  If, at a state s on the ancestor chain of an active
+   leaf, the first matching descriptor's first candidate is a forbidden (null) transition, the candidates collected for
+   that leaf are those of the chain UP TO s only: nothing declared on an ancestor of s is collected, whatever its guards say *)
+Theorem C20_null_forbids : forall gpass m ev leaf pre s post k ks t r,
+  anc_self m leaf = pre ++ s :: post ->
+  String.eqb (e_type ev) "" = false ->
+  matching_descriptors (map fst (n_on (nd m s))) (e_type ev) = k :: ks ->
+  lookup_on (n_on (nd m s)) k = t :: r -> t_forbidden t = true ->
+  Some (GenGeom.collect_eligible_transitions m gpass leaf ev) = collect_chain (fun t => Some (gpass t)) m ev (pre ++ [s]).
+Proof. exact null_forbids_source. Qed.
+Print Assumptions C20_null_forbids.
+
+(* the walk consults the descriptors in exactly the order C20_order describes: the translated walk is the model's *)
+Theorem C20_walk_is_the_source : forall gpass m ev leaf,
+  collect (fun t => Some (gpass t)) m ev leaf = Some (GenGeom.collect_eligible_transitions m gpass leaf ev).
+Proof. exact collect_bridge. Qed.
+Print Assumptions C20_walk_is_the_source.
+
 (* non-vacuity / sanity: concrete instances *)
 Example C20_ex_order :
   matching_descriptors ["a.*"; "*"; "a.b.*"; "a.b.c"; "a.c.*"]%string "a.b.c"
@@ -57,6 +77,15 @@ Example C20_ex_internal :
   matching_descriptors ["*"; "done.*"; "done.state.m.a"]%string "done.state.m.a" = ["done.state.m.a"]%string /\
   matching_descriptors ["*"; "done.*"]%string "done.state.m.a" = [].
 Proof. vm_compute. auto. Qed.
+Definition nf_n id par k ch ini d on : node := Build_node id par k ch ini d [] [] on None [] [] None None.
+Definition nf_m : machine := Build_machine
+  [ nf_n "m" None KCompound [1; 2] (Some 1) 0 [("E"%string, [Build_trans 1 0 "E" (TState 2) None [] false false])];
+    nf_n "m.a" (Some 0) KAtomic [] None 1 [("E"%string, [Build_trans 2 1 "E" TNone None [] false true])];
+    nf_n "m.b" (Some 0) KAtomic [] None 1 [] ] 10 None.
+Example C20_ex_null_forbids :
+  GenGeom.collect_eligible_transitions nf_m (fun _ => true) 1 (Build_event "E" EPlain 0) = [] /\
+  map t_id (GenGeom.collect_eligible_transitions nf_m (fun _ => true) 2 (Build_event "E" EPlain 0)) = [1].
+Proof. vm_compute. split; reflexivity. Qed.
 Example C20_ex_partial_self :
   is_partial_for "a.b" "a.b.*" /\ is_partial_for "a.b.c" "a.*" /\ NoDup ["a.*"; "*"; "a.b.*"]%string.
 Proof.
